@@ -1,6 +1,7 @@
 """C01 -- worker budget and legal trial life cycle in every tuning run."""
 from pyvc.spec import *
 from contracts.iface import *
+from contracts.c12 import Tuner_run  # noqa: F401,E402  (the tuning loop itself: worker budget and life cycle over whole runs, bounded)
 
 LEVEL = "exploration"
 TUNER = "syne_tune.tuner"
